@@ -436,3 +436,31 @@ func init() {
 }
 
 var onceDone = map[*Cell]bool{}
+
+// strings.Builder with concrete contents (shadow state, reset per path together with onceDone)
+var builders = map[*Cell]string{}
+
+func init() {
+	intrinsics["(*strings.Builder).WriteString"] = func(e *Exec, a []Value) Value {
+		c := a[0].(VPtr).C
+		s, ok := a[1].(VStr)
+		if !ok {
+			e.fail("strings.Builder.WriteString of a non-concrete string")
+		}
+		builders[c] += s.S
+		return VTuple{[]Value{VInt{lenC(len(s.S))}, zero(errType)}}
+	}
+	intrinsics["(*strings.Builder).WriteByte"] = func(e *Exec, a []Value) Value {
+		c := a[0].(VPtr).C
+		t := e.concretise(a[1].(VInt).T)
+		if !t.Const {
+			e.fail("strings.Builder.WriteByte of a non-concrete byte")
+		}
+		builders[c] += string([]byte{byte(t.U.Uint64())})
+		return zero(errType)
+	}
+	intrinsics["(*strings.Builder).String"] = func(e *Exec, a []Value) Value { return VStr{builders[a[0].(VPtr).C]} }
+	intrinsics["(*strings.Builder).Len"] = func(e *Exec, a []Value) Value { return VInt{lenC(len(builders[a[0].(VPtr).C]))} }
+	intrinsics["(*strings.Builder).Grow"] = func(e *Exec, a []Value) Value { return nil }
+	intrinsics["(*strings.Builder).Reset"] = func(e *Exec, a []Value) Value { delete(builders, a[0].(VPtr).C); return nil }
+}
